@@ -435,11 +435,17 @@ class Builder:
         ent_results_array: Array,
         tp: EPRType,
         role: EPRRole,
-    ) -> None:
+    ) -> bool:
+        """Build the loop that hands each pair to the post routine.
+
+        :return: whether the post routine consumed (measured or freed) its qubit, i.e.
+            whether no pair is left in memory after the loop
+        """
 
         loop_register = self._mem_mgr.get_inactive_register(activate=True)
         qubit_reg = self._mem_mgr.get_inactive_register(activate=True)
         bell_state_reg = self._mem_mgr.get_inactive_register(activate=True)
+        consumed: List[bool] = []
 
         def post_loop(conn: BaseNetQASMConnection, loop_reg: RegFuture):
             # Wait for each pair individually
@@ -466,6 +472,9 @@ class Builder:
             pair_future = RegFuture(self._connection, loop_register)
             assert params.post_routine is not None
             params.post_routine(self, q, pair_future)
+            # The FutureQubit only has a meaning inside the post routine.
+            consumed.append(not q.active)
+            q.active = False
 
         # TODO use loop context
         self._build_cmds_loop_body(
@@ -474,6 +483,7 @@ class Builder:
         self._mem_mgr.remove_active_register(loop_register)
         self._mem_mgr.remove_active_register(qubit_reg)
         self._mem_mgr.remove_active_register(bell_state_reg)
+        return len(consumed) > 0 and all(consumed)
 
     def _add_wait_for_ent_info_cmd(
         self, ent_results_array: Array, pair: operand.Register
@@ -1927,9 +1937,14 @@ class Builder:
 
         # Construct and add NetQASM instructions for post routine
         if params.post_routine:
-            self._build_cmds_post_epr(
+            consumed = self._build_cmds_post_epr(
                 qubit_ids_array, params, ent_results_array, EPRType.K, role
             )
+            if consumed:
+                # The post routine measured or freed every pair: no pair is left in
+                # memory, so the handles (and their virtual IDs) are given back.
+                for q in qubit_futures:
+                    q.active = False
 
         return qubit_futures, ent_results_array
 
